@@ -188,6 +188,92 @@ def validate(events, workdir, tag, spec="Trace", heap="8g", timeout=10800):
     return summary, lines[1:]
 
 
+def _read_text_file(path, limit=400000):
+    try:
+        with open(path, "rb") as f:
+            raw = f.read(limit + 1)
+        if len(raw) > limit:
+            return None
+        if raw[:2] == b"\x1f\x8b":
+            import gzip
+            raw = gzip.decompress(raw)
+        elif raw[:3] == b"BZh":
+            import bz2
+            raw = bz2.decompress(raw)
+    except (OSError, EOFError, ValueError):
+        return None
+    return raw.decode("latin-1")
+
+
+def read_mps_content(path):
+    """structured content of an MPS file the library wrote (trusted reader of the writer's own fixed layout): objsense, objname, rows,
+    columns with their entries (objective entry first, the others in the order of the ROWS section - the storage order inside a column is
+    not observable through the API), integer marks from the INTORG/INTEND markers, rhs, ranges, bounds.  None for files with SOS sets or a
+    REFROW section (not modelled), or when anything unexpected shows up (then nothing is compared)."""
+    text = _read_text_file(path)
+    if text is None:
+        return None
+    sec, objsense, objname = None, "", ""
+    rows, cols, rhs, ranges, bounds, order = [], [], [], [], [], {}
+    inint = False
+    for line in text.split("\n"):
+        if not line.strip() or line.startswith("*"):
+            continue
+        tk = line.split()
+        if not line[0].isspace():
+            sec = tk[0]
+            if sec in ("REFROW",):
+                return None
+            continue
+        if sec == "OBJSENSE":
+            objsense = tk[0]
+        elif sec == "OBJNAME":
+            objname = tk[0]
+        elif sec == "ROWS":
+            if len(tk) != 2:
+                return None
+            if tk[0] == "N":
+                if tk[1] != objname:
+                    return None
+                order[tk[1]] = -1
+            else:
+                order[tk[1]] = len(rows)
+                rows.append(dict(t=tk[0], name=tk[1]))
+        elif sec == "COLUMNS":
+            if len(tk) >= 3 and tk[-2] == "'MARKER'":
+                if tk[-1] == "'INTORG'":
+                    inint = True
+                elif tk[-1] == "'INTEND'":
+                    inint = False
+                else:
+                    return None          # SOS markers
+                continue
+            if len(tk) != 3 or tk[1] not in order:
+                return None
+            if not cols or cols[-1]["col"] != tk[0]:
+                cols.append(dict(col=tk[0], integer=inint, ent=[]))
+            cols[-1]["ent"].append(dict(row=tk[1], val=tk[2]))
+        elif sec == "RHS":
+            if len(tk) != 3:
+                return None
+            rhs.append(dict(row=tk[1], val=tk[2]))
+        elif sec == "RANGES":
+            if len(tk) != 3:
+                return None
+            ranges.append(dict(row=tk[1], val=tk[2]))
+        elif sec == "BOUNDS":
+            if len(tk) not in (3, 4):
+                return None
+            bounds.append(dict(t=tk[0], col=tk[2], val=tk[3] if len(tk) == 4 else ""))
+        elif sec in ("NAME", "ENDATA"):
+            pass
+        else:
+            return None
+    for c in cols:
+        c["ent"].sort(key=lambda e: order[e["row"]])
+    return dict(objsense=objsense, objname=objname, rows=rows, cols=cols, rhs=rhs, ranges=ranges, bounds=bounds)
+
+
 def read_lp_tokens(path, limit=400000):
     """blank-separated tokens of an LP-format file the library wrote (plain, gzip or bzip2 by magic bytes), comments (backslash to end
     of line) removed, starting at Minimize/Maximize (the optional Problem section is skipped); an Integer keyword with no
@@ -228,6 +314,10 @@ def add_lp_text(evs, workdir):
             toks = read_lp_tokens(os.path.join(workdir, e["file"]))
             if toks is not None and len(toks) <= 6000:
                 out.append(dict(call="lp_text", h=e["h"], file=e["file"], objname=e["objname"], tokens=toks))
+        if e["call"] == "write_prob" and e.get("rval") == 0 and e.get("type") == "MPS":
+            tree = read_mps_content(os.path.join(workdir, e["file"]))
+            if tree is not None and sum(len(c["ent"]) for c in tree["cols"]) <= 3000:
+                out.append(dict(call="mps_text", h=e["h"], file=e["file"], tree=tree))
     return out
 
 
